@@ -33,7 +33,7 @@ Definition K_TorProtocol : N := 3.
 Definition py_int (p : bytes) : option N := if all_digits p then Some (digits_val p) else None.
 
 Definition parse_line (s : bytes) : option endpoint :=
-  if prefixb (tx "unix:") s then Some (EpUnix (skipn 5 s))
+  if prefixb (tx "unix:") s then Some (EpUnix (skipn 5 (first_word s)))   (* socks_config.split()[0][5:] *)
   else
     let w := if has_char SP s then first_word s else s in
     if has_char COLON w then
@@ -77,8 +77,14 @@ Definition opt_list {A} (o : option A) : list A := match o with Some x => [x] | 
 (* socks_ports == ['DEFAULT']: ask for __SocksPort *)
 Definition asked_default (t : tor) : bool := is_default (reported t).
 
+(* [] if default == DEFAULT_VALUE else [default]; a keyword-only answer parses to DEFAULT_VALUE *)
 Definition lines_of (t : tor) : list bytes :=
-  if asked_default t then [match dflt t with [] => tx default_value | d :: _ => d end] else reported t.
+  if asked_default t then
+    match dflt t with
+    | [] => []
+    | d :: _ => if beqb d (tx default_value) then [] else [d]
+    end
+  else reported t.
 
 Definition queries (t : tor) : list bytes :=
   getconf_line (tx key_getconf) :: (if asked_default t then [getconf_line (tx key_default)] else []).
@@ -135,10 +141,23 @@ Definition init (t : tor) : mstate := {| m_tor := t; m_cache := None; m_cfg := b
 
 Definition quiet (st : mstate) (r : outcome) : opobs * mstate := ({| sent := []; out := r |}, st).
 
+(* torconfig._first_usable_socks_endpoint: skip "0" lines and lines int() refuses *)
+Fixpoint first_usable (ls : list bytes) : option endpoint :=
+  match ls with
+  | [] => None
+  | l :: r =>
+      if beqb (first_word l) (tx "0") then first_usable r
+      else match parse_line l with
+           | Some e => Some e
+           | None => first_usable r
+           end
+  end.
+
+(* socks_endpoint(port=None) / create_socks_endpoint(None): RuntimeError when nothing is usable *)
 Definition cfg_first (st : mstate) : opobs * mstate :=
-  match m_cfg st with
-  | [] => quiet st (OErr K_Runtime)
-  | l :: _ => quiet st (parse_outcome l)
+  match first_usable (m_cfg st) with
+  | Some e => quiet st (OEp e)
+  | None => quiet st (OErr K_Runtime)
   end.
 
 Definition step (st : mstate) (o : op) (pick : endpoint) : opobs * mstate :=
